@@ -1,5 +1,5 @@
 use super::*;
-use crate::ast_util::range;
+use crate::ast_util::{purge_trivia, range};
 use std::convert::Infallible;
 
 use full_moon::{
@@ -114,7 +114,7 @@ impl Visitor for UDim2CountVisitor {
                     call_range: range(call),
                     args_provided,
                     args_are_between_0_and_1: arguments.iter().all(|argument| {
-                        match argument.to_string().parse::<f32>() {
+                        match purge_trivia(argument).to_string().parse::<f32>() {
                             Ok(number) => (0.0..=1.0).contains(&number),
                             Err(_) => false,
                         }
